@@ -19,39 +19,39 @@ Notation GEN_RUN S w l := (run S default_config Gen_handlers.handlers Gen_handle
 
 (* 0. The master invariant, for every service, every configuration and every handler table of the handler language that
       pickles only under the allow_pickle guard: the whole trace is well-formed. *)
-Theorem c07_trace_wellformed : forall W (S : sem W) C HT DT ML UL BL, table_pk C HT ->
+Theorem c07_trace_wellformed : forall W (S : sem W) C HT DT ML UL BL, val_closed S -> table_pk C HT ->
   forall w l, wf S C (tr (run S C HT DT ML UL BL (init w) l)).
 Proof. intros. now apply wf_run. Qed.
 Print Assumptions c07_trace_wellformed.
 
-Theorem c07_trace_wellformed_pinned_tree : forall W (S : sem W) w l, wf S default_config (tr (GEN_RUN S w l)).
-Proof. intros. apply wf_run. exact handlers_guarded. Qed.
+Theorem c07_trace_wellformed_pinned_tree : forall W (S : sem W), val_closed S -> forall w l, wf S default_config (tr (GEN_RUN S w l)).
+Proof. intros. apply wf_run; [assumption|exact handlers_guarded]. Qed.
 Print Assumptions c07_trace_wellformed_pinned_tree.
 
 (* 1. Every object reference a message carries is resolved through the table of THIS connection at that moment; the table
       holds only objects the server itself lent to this peer earlier on this connection (an EBox event), and at every
       moment it is exactly the replay of the lend / release / clear events.  A key that is not there (forged, already
       released, harvested on another connection) gives KeyError (EMiss). *)
-Theorem c07_only_table_objects : forall W (S : sem W) w l t1 k o t2,
+Theorem c07_only_table_objects : forall W (S : sem W), val_closed S -> forall w l t1 k o t2,
   tr (GEN_RUN S w l) = t1 ++ EResolve k o :: t2 ->
   (exists c, tbl_find k (g_tbl (ghost_of t2)) = Some (o, c)) /\ exists k', In (EBox k' o) t2.
-Proof. intros W S w l. exact (resolve_only_lent S default_config _ _ _ _ _ handlers_guarded w l). Qed.
+Proof. intros W S Sv w l. exact (resolve_only_lent S default_config _ _ _ _ _ Sv handlers_guarded w l). Qed.
 Print Assumptions c07_only_table_objects.
 
-Theorem c07_unknown_reference_is_keyerror : forall W (S : sem W) w l t1 k t2,
+Theorem c07_unknown_reference_is_keyerror : forall W (S : sem W), val_closed S -> forall w l t1 k t2,
   tr (GEN_RUN S w l) = t1 ++ EMiss k :: t2 -> tbl_find k (g_tbl (ghost_of t2)) = None.
-Proof. intros W S w l. exact (miss_not_lent S default_config _ _ _ _ _ handlers_guarded w l). Qed.
+Proof. intros W S Sv w l. exact (miss_not_lent S default_config _ _ _ _ _ Sv handlers_guarded w l). Qed.
 Print Assumptions c07_unknown_reference_is_keyerror.
 
-Theorem c07_table_is_replay_of_lend_events : forall W (S : sem W) w l,
+Theorem c07_table_is_replay_of_lend_events : forall W (S : sem W), val_closed S -> forall w l,
   tbl (GEN_RUN S w l) = g_tbl (ghost_of (tr (GEN_RUN S w l))).
-Proof. intros W S w l. exact (table_is_replay S default_config _ _ _ _ _ handlers_guarded w l). Qed.
+Proof. intros W S Sv w l. exact (table_is_replay S default_config _ _ _ _ _ Sv handlers_guarded w l). Qed.
 Print Assumptions c07_table_is_replay_of_lend_events.
 
 (* 1'. Concretely: a request whose first argument refers to a key that is not in the table is answered with KeyError under
        its own sequence number, for EVERY handler number, whatever follows; nothing is touched, table and service unchanged. *)
 Theorem c07_forged_reference_refused : forall W (S : sem W) (s : hst W) seq h key rest answers,
-  closed s = false -> tbl_find key (tbl s) = None ->
+  lost s = false -> closed s = false -> tbl_find key (tbl s) = None ->
   let msg := PTuple [PInt 1; seq; PTuple [h; PTuple [PInt 2; PTuple (PTuple [PInt 3; key] :: rest)]]] in
   exists s', handle_msg S default_config Gen_handlers.handlers Gen_handlers.dispatch Gen_handlers.msg_ladder
                Gen_handlers.unbox_ladder Gen_handlers.box_ladder msg answers s = (s', OExc seq (XStd KeyError))
@@ -62,41 +62,41 @@ Print Assumptions c07_forged_reference_refused.
 (* 2. Whatever the implementation touches, probes, accesses by name, lends or pickles is an object the current request holds
       legitimately: it came from the root (GETROOT), out of the table, from type() of such an object, or as the result of a
       permitted operation earlier in the same request — for every handler number and every argument shape. *)
-Theorem c07_touched_only_held : forall W (S : sem W) w l t1 e t2 o,
+Theorem c07_touched_only_held : forall W (S : sem W), val_closed S -> forall w l t1 e t2 o,
   tr (GEN_RUN S w l) = t1 ++ e :: t2 -> target e = Some o ->
   In o (g_auth (ghost_of t2)) /\ exists e', In e' t2 /\ gives e' o.
-Proof. intros W S w l. exact (touched_only_held S default_config _ _ _ _ _ handlers_guarded w l). Qed.
+Proof. intros W S Sv w l. exact (touched_only_held S default_config _ _ _ _ _ Sv handlers_guarded w l). Qed.
 Print Assumptions c07_touched_only_held.
 
 (* 3. Every access by a peer-chosen name passed the C06 decision; under the default configuration that means: a read
       (never set / delete), of a name that starts with exposed_ or is in safe_attrs.  This holds for every handler: the
       handler language has no other way to reach an attribute by name (the CVE-2019-16328 shape has no translation). *)
-Theorem c07_attr_effects_checked : forall W (S : sem W) w l t1 o p final ys t2,
+Theorem c07_attr_effects_checked : forall W (S : sem W), val_closed S -> forall w l t1 o p final ys t2,
   tr (GEN_RUN S w l) = t1 ++ EAttr o p final ys :: t2 -> p = PGet /\ allowed_default final.
 Proof.
-  intros W S w l t1 o p final ys t2 E.
-  destruct (trace_event_ok S default_config _ _ _ _ _ handlers_guarded w l _ _ _ E) as (_ & pn & vw & D).
+  intros W S Sv w l t1 o p final ys t2 E.
+  destruct (trace_event_ok S default_config _ _ _ _ _ Sv handlers_guarded w l _ _ _ E) as (_ & pn & vw & D).
   exact (default_decision p pn vw final D).
 Qed.
 Print Assumptions c07_attr_effects_checked.
 
 (* the hasattr probes _check_attr makes before deciding are on allowed names only *)
-Theorem c07_probes_only_allowed_names : forall W (S : sem W) w l t1 o n t2,
+Theorem c07_probes_only_allowed_names : forall W (S : sem W), val_closed S -> forall w l t1 o n t2,
   tr (GEN_RUN S w l) = t1 ++ EProbe o n :: t2 -> allowed_default n.
 Proof.
-  intros W S w l t1 o n t2 E.
-  destruct (trace_event_ok S default_config _ _ _ _ _ handlers_guarded w l _ _ _ E) as (_ & p & pn & vw & H).
+  intros W S Sv w l t1 o n t2 E.
+  destruct (trace_event_ok S default_config _ _ _ _ _ Sv handlers_guarded w l _ _ _ E) as (_ & p & pn & vw & H).
   exact (probe_names_default p pn vw n H).
 Qed.
 Print Assumptions c07_probes_only_allowed_names.
 
 (* an object's own _rpyc_*attr hook is used only when its type defines one (then the object decides: C06) *)
-Theorem c07_hook_only_when_defined : forall W (S : sem W) w l t1 o p n ys t2,
+Theorem c07_hook_only_when_defined : forall W (S : sem W), val_closed S -> forall w l t1 o p n ys t2,
   tr (GEN_RUN S w l) = t1 ++ EHook o p n ys :: t2 ->
   exists pn vw, decide true (c_attr default_config) p pn vw = Ok (ViaHook n) /\ hook_for vw p = true.
 Proof.
-  intros W S w l t1 o p n ys t2 E.
-  destruct (trace_event_ok S default_config _ _ _ _ _ handlers_guarded w l _ _ _ E) as (_ & pn & vw & D).
+  intros W S Sv w l t1 o p n ys t2 E.
+  destruct (trace_event_ok S default_config _ _ _ _ _ Sv handlers_guarded w l _ _ _ E) as (_ & pn & vw & D).
   exists pn, vw. split; [exact D|]. revert D. unfold decide, Attr.access_attr.
   destruct (nkind_of pn); try discriminate; destruct (hook_for vw p); try reflexivity;
     match goal with |- context [Attr.check_attr ?a ?b ?c ?d ?e] => destruct (Attr.check_attr a b c d e) as [[]| | |] end; cbn; discriminate.
@@ -104,27 +104,27 @@ Qed.
 Print Assumptions c07_hook_only_when_defined.
 
 (* 4. Nothing is pickled while allow_pickle is off (any configuration with the switch off; the default has it off). *)
-Theorem c07_no_pickle : forall W (S : sem W) C HT DT ML UL BL, table_pk C HT -> c_pickle C = false ->
+Theorem c07_no_pickle : forall W (S : sem W) C HT DT ML UL BL, val_closed S -> table_pk C HT -> c_pickle C = false ->
   forall w l o ys, ~ In (ETouch o OpPickle ys) (tr (run S C HT DT ML UL BL (init w) l)).
 Proof.
-  intros W S C HT DT ML UL BL Hpk Hc w l o ys Hin. apply in_split in Hin as (t1 & t2 & E).
-  rewrite (pickle_needs_switch S C _ _ _ _ _ Hpk w l _ _ _ _ E) in Hc. discriminate.
+  intros W S C HT DT ML UL BL Sv Hpk Hc w l o ys Hin. apply in_split in Hin as (t1 & t2 & E).
+  rewrite (pickle_needs_switch S C _ _ _ _ _ Sv Hpk w l _ _ _ _ E) in Hc. discriminate.
 Qed.
 Print Assumptions c07_no_pickle.
-Theorem c07_no_pickle_pinned_tree : forall W (S : sem W) w l o ys, ~ In (ETouch o OpPickle ys) (tr (GEN_RUN S w l)).
-Proof. intros W S. exact (c07_no_pickle W S default_config _ _ _ _ _ handlers_guarded eq_refl). Qed.
+Theorem c07_no_pickle_pinned_tree : forall W (S : sem W), val_closed S -> forall w l o ys, ~ In (ETouch o OpPickle ys) (tr (GEN_RUN S w l)).
+Proof. intros W S Sv. exact (c07_no_pickle W S default_config _ _ _ _ _ Sv handlers_guarded eq_refl). Qed.
 Print Assumptions c07_no_pickle_pinned_tree.
 
 (* 5. No exception record — solicited or not, however crafted — makes the process import a module or call a constructor;
       the only classes instantiated (with __new__) are builtin exception classes or generic stand-ins. *)
-Theorem c07_no_import_no_ctor : forall W (S : sem W) w l v,
+Theorem c07_no_import_no_ctor : forall W (S : sem W), val_closed S -> forall w l v,
   In (EVin v) (tr (GEN_RUN S w l)) ->
   (forall m, v <> Vinegar.EImport m) /\ (forall c, v <> Vinegar.EInit c) /\
   (forall c, v = Vinegar.ENew (Vinegar.Real c) ->
              exists n ok, Vinegar.assoc n (Vinegar.builtins_ns (s_env S)) = Some (Vinegar.AExc c ok)).
 Proof.
-  intros W S w l v Hin. apply in_split in Hin as (t1 & t2 & E).
-  destruct (vinegar_effects S default_config _ _ _ _ _ handlers_guarded w l _ _ _ E) as (A & B & D). repeat split.
+  intros W S Sv w l v Hin. apply in_split in Hin as (t1 & t2 & E).
+  destruct (vinegar_effects S default_config _ _ _ _ _ Sv handlers_guarded w l _ _ _ E) as (A & B & D). repeat split.
   - intros m ->. destruct (A m eq_refl) as [X|X]; discriminate X.
   - exact B.
   - intros c Hc. exact (D c Hc eq_refl).
@@ -133,8 +133,14 @@ Print Assumptions c07_no_import_no_ctor.
 
 (* 6. Each message has exactly one outcome.  A request is answered under ITS OWN sequence number with a value or an exception,
       or this connection ends (a local KeyboardInterrupt/SystemExit the configuration propagates, or the peer's own close);
-      anything that is not a request is never answered: dropped, or this connection ends; a dead connection reads nothing. *)
+      anything that is not a request is never answered: dropped, or this connection ends; a dead connection reads nothing.
+      [closed s' = true] after OEnd is what Connection.serve_all does with an exception that leaves serve() (typed fact
+      serve_all_closes: the loop sits in try/finally close()); a caller that drives serve() itself must close on its own.
+      [OUnm]: the model does not describe this message (an operation on a plain value's own attribute, keyword arguments,
+      a frozenset payload whose iteration order matters, nesting deeper than 64, ...); it then says nothing about the rest
+      of the connection (c07_unmodelled_is_absorbing): all statements here are about the modelled prefix ([lost s = false]). *)
 Theorem c07_always_answered_or_dropped : forall W (S : sem W) msg answers (s s' : hst W) o,
+  lost s = false ->
   handle_msg S default_config Gen_handlers.handlers Gen_handlers.dispatch Gen_handlers.msg_ladder Gen_handlers.unbox_ladder
              Gen_handlers.box_ladder msg answers s = (s', o) ->
   (closed s = true -> o = ODead /\ s' = s) /\
@@ -144,33 +150,66 @@ Theorem c07_always_answered_or_dropped : forall W (S : sem W) msg answers (s s' 
   (closed s = false -> (forall seq args, kind_of Gen_handlers.msg_ladder msg <> Some (DRequest, seq, args)) ->
      o = OIgnored \/ (exists x, o = OEnd x /\ closed s' = true) \/ o = OUnm).
 Proof.
-  intros W S msg answers s s' o E. split; [|split].
-  - intros Hc. exact (dead_outcome S _ _ _ _ _ _ _ _ _ _ _ Hc E).
-  - intros Hc seq args Hk. exact (request_outcome S _ _ _ _ _ _ _ _ _ _ _ _ _ Hc Hk E).
-  - intros Hc Hk. exact (other_outcome S _ _ _ _ _ _ _ _ _ _ _ Hc Hk E).
+  intros W S msg answers s s' o Hl E. split; [|split].
+  - intros Hc. exact (dead_outcome S _ _ _ _ _ _ _ _ _ _ _ Hl Hc E).
+  - intros Hc seq args Hk. exact (request_outcome S _ _ _ _ _ _ _ _ _ _ _ _ _ Hl Hc Hk E).
+  - intros Hc Hk. exact (other_outcome S _ _ _ _ _ _ _ _ _ _ _ Hl Hc Hk E).
 Qed.
 Print Assumptions c07_always_answered_or_dropped.
 
-(* 7. The service's state changes only together with a touching event (an operation on / a checked access to / a hook of a
-      held object): a message that is refused before anything is touched — unknown reference, denied name, unknown handler
-      number, wrong arity, malformed shape, unsolicited reply, crafted exception record — leaves it exactly as it was. *)
-Theorem c07_refusals_leave_state_untouched : forall W (S : sem W) msg answers (s s' : hst W) o,
+(* 6'. On the pinned tree responses go through _dispatch_response: an unsolicited reply / exception record that cannot be rebuilt is
+       dropped like any other unsolicited response; the connection ends only for EOFError or for something that is not an Exception. *)
+Theorem c07_undecodable_response : forall W (S : sem W) msg answers (s s' : hst W) o d seq args,
+  lost s = false -> closed s = false -> kind_of Gen_handlers.msg_ladder msg = Some (d, seq, args) -> d = DReplyG \/ d = DExceptionG ->
+  handle_msg S default_config Gen_handlers.handlers Gen_handlers.dispatch Gen_handlers.msg_ladder Gen_handlers.unbox_ladder
+             Gen_handlers.box_ladder msg answers s = (s', o) ->
+  o = OIgnored \/ (exists x, o = OEnd x /\ escapes_response x = true /\ closed s' = true) \/ o = OUnm.
+Proof. intros W S. exact (guarded_response_outcome S default_config _ _ _ _ _). Qed.
+Print Assumptions c07_undecodable_response.
+
+(* 6''. Once the model met something it does not describe, it says nothing more: every later outcome is OUnm, nothing changes. *)
+Theorem c07_unmodelled_is_absorbing : forall W (S : sem W) msg answers (s s' : hst W),
+  (lost s = true -> handle_msg S default_config Gen_handlers.handlers Gen_handlers.dispatch Gen_handlers.msg_ladder Gen_handlers.unbox_ladder
+                               Gen_handlers.box_ladder msg answers s = (s, OUnm)) /\
+  (handle_msg S default_config Gen_handlers.handlers Gen_handlers.dispatch Gen_handlers.msg_ladder Gen_handlers.unbox_ladder
+              Gen_handlers.box_ladder msg answers s = (s', OUnm) -> lost s' = true).
+Proof. intros W S msg answers s s'. split; [apply lost_is_absorbing|apply unmodelled_sets_lost]. Qed.
+Print Assumptions c07_unmodelled_is_absorbing.
+
+(* 7. [partial: true of the model by construction, see the assumption "hasattr probes ... are reads" in the harness META]
+      The service's state changes only together with an event that runs service code: an operation on / a checked access to /
+      a hook of a held object, a hasattr probe of _check_attr, repr()/dir() of an exception payload, on_disconnect.  A message
+      refused BEFORE any of these -- unknown reference, unknown handler number, wrong arity, malformed shape, a name that is
+      not text, unsolicited reply, crafted exception record -- leaves it exactly as it was.  (A denied name on an object is
+      refused after the probe hasattr(obj, "exposed_" + name): that probe is service code when the object defines __getattr__.) *)
+Theorem c07_refusals_leave_state_untouched_partial : forall W (S : sem W) msg answers (s s' : hst W) o,
   handle_msg S default_config Gen_handlers.handlers Gen_handlers.dispatch Gen_handlers.msg_ladder Gen_handlers.unbox_ladder
              Gen_handlers.box_ladder msg answers s = (s', o) ->
   (nt (tr s) <= nt (tr s'))%nat /\ (nt (tr s') = nt (tr s) -> wst s' = wst s).
 Proof. intros W S msg answers s s' o E. exact (q_handle_msg S _ _ _ _ _ _ _ _ _ _ _ E). Qed.
-Print Assumptions c07_refusals_leave_state_untouched.
+Print Assumptions c07_refusals_leave_state_untouched_partial.
+
+(* 7'. netref.class_factory (a proxy for a peer-declared type name) never makes the process import a module: on the pinned tree it
+       reads the peer-named class out of the module's own __dict__ (generated fact class_lookup_mode = LkDict), so a module-level
+       __getattr__ hook (PEP 562: concurrent.futures, ...) is never run for a peer-chosen name. *)
+Theorem c07_class_lookup_never_imports : forall W (S : sem W), val_closed S -> forall w l m, ~ In (ECls m) (tr (GEN_RUN S w l)).
+Proof.
+  intros W S Sv w l m Hin. apply in_split in Hin as (t1 & t2 & E).
+  pose proof (class_hook_needs_getattr S default_config _ _ _ _ _ Sv handlers_guarded w l _ _ _ E) as H. discriminate H.
+Qed.
+Print Assumptions c07_class_lookup_never_imports.
 
 (* 8. Tie to the generated facts of the current source tree. *)
 Theorem c07_tie :
   Gen_handlers.handlers = Hostile.handlers /\ Gen_handlers.dispatch = Hostile.dispatch /\
   Gen_handlers.msg_ladder = Hostile.msg_ladder /\ Gen_handlers.unbox_ladder = Hostile.unbox_ladder /\
   Gen_handlers.box_ladder = Hostile.box_ladder /\ Gen_handlers.getitem_plain = true /\ Gen_handlers.serve_all_closes = true /\
-  Gen_attrpolicy.decode_guarded = c_guard default_config /\ table_pk default_config Gen_handlers.handlers.
+  Gen_attrpolicy.decode_guarded = c_guard default_config /\ Gen_handlers.class_lookup_mode = c_cls_mode default_config /\
+  table_pk default_config Gen_handlers.handlers.
 Proof.
   destruct ladders_tie as (A & B & D). destruct table_lookup_tie as [G H]. destruct default_config_tie as (_ & _ & _ & K & _).
   split; [reflexivity|]. split; [reflexivity|]. split; [exact A|]. split; [exact B|]. split; [exact D|]. split; [exact G|].
-  split; [exact H|]. split; [exact K|]. exact handlers_guarded.
+  split; [exact H|]. split; [exact K|]. split; [exact class_lookup_tie|]. exact handlers_guarded.
 Qed.
 Print Assumptions c07_tie.
 
@@ -186,7 +225,9 @@ Definition ex_world : world :=
                 ex_obj (ex_key 2) 3%N [(txt "__eq__", AO 1%N)] ANone;
                 ex_obj (ex_key 3) 3%N [] ANone];
      w_builtin := [txt "builtins.list"] |}.
-Definition ex_sem : sem unit := world_sem ex_world [txt "ValueError"; txt "KeyboardInterrupt"].
+Definition ex_mods : list (Vinegar.text * Vinegar.ns) :=
+  [(txt "lazymod", [(txt "Lazy", Vinegar.ALazy [txt "lazymod.impl"] None); (txt "Plain", Vinegar.AOther)])].
+Definition ex_sem : sem unit := world_sem ex_world [txt "ValueError"; txt "KeyboardInterrupt"] ex_mods.
 Definition V (v : pyval) := PTuple [PInt 1; v].
 Definition Lr (k : pyval) := PTuple [PInt 3; k].
 Definition Tt (l : list pyval) := PTuple [PInt 2; PTuple l].
@@ -235,9 +276,36 @@ Example c07_guard_hypothesis_is_decidable_and_sharp :
   table_pkb false Hostile.handlers = true /\
   table_pkb false [("pickle"%string, {| h_min := 2; h_defaults := []; h_body := XOp OpPickle P0 P1 |})] = false.
 Proof. split; vm_compute; reflexivity. Qed.
-(* refusals touch nothing: the denied GETATTR of the session adds no touching event *)
-Example c07_denied_request_is_quiet :
+(* refusals before any probe run no service code: the forged reference of the session adds no touching event *)
+Example c07_refused_request_is_quiet :
   let s1 := fst (step ex_sem default_config Hostile.handlers Hostile.dispatch Hostile.msg_ladder Hostile.unbox_ladder Hostile.box_ladder (init tt) (req 1 3 [])) in
-  let s2 := fst (step ex_sem default_config Hostile.handlers Hostile.dispatch Hostile.msg_ladder Hostile.unbox_ladder Hostile.box_ladder s1 (req 2 4 [Lr (ex_key 0); V (S' "secret")])) in
+  let s2 := fst (step ex_sem default_config Hostile.handlers Hostile.dispatch Hostile.msg_ladder Hostile.unbox_ladder Hostile.box_ladder s1 (req 6 9 [Lr (ex_key 2)])) in
   nt (tr s2) = nt (tr s1) /\ tbl s2 = tbl s1.
 Proof. vm_compute. split; reflexivity. Qed.
+(* the canary world meets the hypothesis on plain-value operations *)
+Example c07_val_closed_is_satisfiable : val_closed ex_sem.
+Proof. apply world_sem_val_closed. Qed.
+
+(* 7'-refuted: with the form class_factory had before the repair -- getattr(module, name, None) -- one PING carrying a proxy whose
+   declared type name resolves through a module-level __getattr__ makes the process import (finding: C07 class_factory import) *)
+Definition getattr_config : config := config_with Vinegar.LkGetattr.
+Definition lazy_ping : @input unit :=
+  IMsg (PTuple [PInt 1; PInt 1; PTuple [PInt 1; Tt [PTuple [PInt 4; PTuple [S' "lazymod.Lazy"; PInt 1; PInt 2]]]]]) [PReply (V (PTuple []))].
+Example c07_class_lookup_refuted_when_getattr :
+  In (ECls (txt "lazymod.impl")) (tr (fst (step ex_sem getattr_config Hostile.handlers Hostile.dispatch Hostile.msg_ladder Hostile.unbox_ladder Hostile.box_ladder (init tt) lazy_ping)))
+  /\ ~ In (ECls (txt "lazymod.impl")) (tr (fst (step ex_sem default_config Hostile.handlers Hostile.dispatch Hostile.msg_ladder Hostile.unbox_ladder Hostile.box_ladder (init tt) lazy_ping))).
+Proof. split; vm_compute; [tauto|intuition discriminate]. Qed.
+
+(* 2-witness (known finding "exception payload repr"): reporting an exception applies repr() to the objects the exception carries.
+   c07_touched_only_held covers it (the object was handed out by service code, in the exception it raised), but that object
+   need not ever have been lent or returned: here object 3 is carried by the exception the call of object 1 raises. *)
+Definition ex_world2 : world :=
+  {| w_objs := [ex_obj (ex_key 0) 2%N [(txt "exposed_get", AO 1%N)] ANone; ex_obj (ex_key 1) 2%N [] (AX (XCarry [3%N]));
+                ex_obj (ex_key 2) 3%N [] ANone; ex_obj (ex_key 3) 3%N [] ANone];
+     w_builtin := [] |}.
+Definition ex_final2 : hst unit :=
+  run (world_sem ex_world2 [] []) default_config Hostile.handlers Hostile.dispatch Hostile.msg_ladder Hostile.unbox_ladder Hostile.box_ladder (init tt)
+      [req 1 3 []; req 2 8 [Lr (ex_key 0); V (S' "get"); V (PTuple []); V (PTuple [])]].
+Example c07_exception_payload_repr_witness :
+  In (EPayload 3%N OpRepr) (tr ex_final2) /\ (forall k, ~ In (EBox k 3%N) (tr ex_final2)) /\ tbl ex_final2 = [(ex_key 0, 0%N, 0%Z)].
+Proof. vm_compute. repeat split; try reflexivity; [tauto|]. intros k H. intuition discriminate. Qed.
